@@ -95,6 +95,32 @@ def run(res, tier):
             bad.append(dict(info, **desc, X=X.tolist()))
         if len(samples) < 3:
             samples.append(desc)
+    # several LmiHinfZpkMeta objects built on ONE regressor object (the way filters are compared): what each reports after
+    # all of them were fitted must be a bound for ITS OWN model and weight
+    for h in range(2 if tier == 'quick' else 8):
+        Xs, _, _ = lmi.linear_data(rng, 2, 1, kind='stable')
+        shared = L.LmiEdmdHinfReg(alpha=1.0, max_iter=6, solver_params=lmi.SOLVER)
+        specs = [dict(zeros=-1.0, poles=-4.0, gain=float(g), t_step=0.5) for g in (4.0, 1.0, 0.25)]
+        try:
+            metas = [L.LmiHinfZpkMeta(hinf_regressor=shared, type='post', discretization='bilinear', units='rad/s', **sp_).fit(
+                Xs, n_inputs=1, episode_feature=True) for sp_ in specs]
+        except Exception:  # noqa
+            dist['fit_error'] = dist.get('fit_error', 0) + 1
+            continue
+        dist['metas_sharing_one_regressor'] = dist.get('metas_sharing_one_regressor', 0) + 1
+        for m_, sp_ in zip(metas, specs):
+            reg = m_.hinf_regressor_
+            gamma = float(np.ravel(reg.gamma_)[0])
+            A, B = lmi.ab(m_, 2) if hasattr(m_, 'coef_') else lmi.ab(reg, 2)
+            wfun = lmi.zpk_filter(sp_['zeros'], sp_['poles'], sp_['gain'], sp_['t_step'], 'bilinear', 'rad/s')
+            if np.any(A) or np.any(B):
+                hn = lmi.hinf_norm(A, B, wfun=wfun)
+                if hn > gamma * (1 + 2e-4) + 1e-6:
+                    bad.append(dict(what='after several LmiHinfZpkMeta estimators built on one regressor object were fitted, the gamma_ '
+                                         'an earlier one reports is not a bound for its own model and weight (fitted state shared '
+                                         'through the constructor argument)', hinf_norm=hn, gamma=gamma, gain=sp_['gain'],
+                                    estimator=repr(m_), X=Xs.tolist()))
+                    break
     # weights with a large gain on two input channels (second-order filters whose state matrix is not a multiple of the
     # identity), lightly damped plant: the cascade must be the documented one (one copy of the SISO filter per channel)
     w_diag = (np.diag([0.9, 0.5]), np.array([[1.0], [1.0]]), np.array([[0.5, -0.4]]), np.array([[0.2]]))
@@ -102,7 +128,10 @@ def run(res, tier):
     # modal second-order filter with poles of opposite sign; used with heavier regularisation and white-noise inputs
     w_modal = (np.diag([0.5, -0.3]), np.array([[1.0], [1.0]]), np.array([[0.8, -0.4]]), np.array([[0.2]]))
     sweep = [(c, t, w, 0.1) for c in (L.LmiEdmdHinfReg, L.LmiDmdcHinfReg) for t in ('pre', 'post') for w in (w_diag, w_tri)]
+    # a weight whose state matrix is exactly zero (FIR: D + C B / z) is dynamic all the same
+    w_fir = (np.zeros((1, 1)), np.array([[1.0]]), np.array([[0.9]]), np.array([[0.3]]))
     extra = [(c, 'pre', w_modal, 1.0) for c in (L.LmiEdmdHinfReg, L.LmiDmdcHinfReg)]
+    extra += [(L.LmiEdmdHinfReg, t, w_fir, 1.0) for t in ('pre', 'post')]
     for j, (cls, typ, wss, alpha) in enumerate((sweep if tier != 'quick' else sweep[::2] + sweep[1::4]) + extra):
         A0 = np.array([[0.9, 0.2, 0.0], [-0.2, 0.9, 0.1], [0.0, -0.1, 0.8]]); B0 = np.array([[0.5, 0.0], [0.0, 0.3], [0.2, 0.4]])
         if alpha == 1.0:
